@@ -16,9 +16,22 @@ type evalEnv struct {
 	st    *State
 	old   *State
 	bound map[string]string // quantified variables
+	pol   int               // polarity with which the formula is asserted: +1 assumption, -1 negated goal, 0 unknown
 }
 
 type evalError struct{ msg string }
+
+// evalGoal evaluates a formula that will be proved (asserted negated):
+// universally quantified variables in positive positions become fresh
+// constants, so no quantifier reaches the solver.
+func (fr *Frame) evalGoal(n *Node, scope map[string]*Val, st, old *State) string {
+	v := fr.evalNodePol(n, scope, st, old, -1)
+	if v == nil || len(v.L) != 1 {
+		fr.vc.unsupported(fr, "contract expression is not boolean: "+n.Src)
+		return tFalse
+	}
+	return v.L[0]
+}
 
 func (fr *Frame) evalBool(n *Node, scope map[string]*Val, st, old *State) string {
 	v := fr.evalNode(n, scope, st, old)
@@ -44,7 +57,11 @@ func (fr *Frame) evalInt(n *Node, scope map[string]*Val, st, old *State) string 
 }
 
 func (fr *Frame) evalNode(n *Node, scope map[string]*Val, st, old *State) (res *Val) {
-	env := &evalEnv{fr: fr, scope: scope, st: st, old: old, bound: map[string]string{}}
+	return fr.evalNodePol(n, scope, st, old, +1)
+}
+
+func (fr *Frame) evalNodePol(n *Node, scope map[string]*Val, st, old *State, pol int) (res *Val) {
+	env := &evalEnv{fr: fr, scope: scope, st: st, old: old, bound: map[string]string{}, pol: pol}
 	defer func() {
 		if r := recover(); r != nil {
 			if e, ok := r.(evalError); ok {
@@ -78,12 +95,19 @@ func (e *evalEnv) lookup(name string) *Val {
 		return v
 	}
 	fr := e.fr
+	if n, ok := fr.vc.curLets[name]; ok {
+		return e.eval(n)
+	}
 	if v, ok := fr.params[name]; ok {
 		return v
 	}
 	if strings.HasPrefix(name, "$") {
 		if t, ok := e.st.ghost[name]; ok {
 			return &Val{T: types.Typ[types.Int], L: []string{t}}
+		}
+		if name == "$N" {
+			fr.vc.streamConsts()
+			return &Val{T: types.Typ[types.Int], L: []string{"g_N"}}
 		}
 		if name == "$wm" {
 			return &Val{T: types.Typ[types.Int], L: []string{e.st.wm}}
@@ -185,20 +209,49 @@ func (e *evalEnv) eval(n *Node) *Val {
 	case "ident":
 		return e.lookup(n.Name)
 	case "unary":
+		if n.Op == "!" {
+			e.pol = -e.pol
+			x := e.eval(n.Args[0])
+			e.pol = -e.pol
+			return bval(not(x.L[0]))
+		}
 		return e.unary(n)
 	case "binary":
 		return e.binary(n)
 	case "cond":
+		save := e.pol
+		e.pol = 0
 		c := e.eval(n.Args[0])
+		e.pol = save
 		a, b := e.eval(n.Args[1]), e.eval(n.Args[2])
 		a, b = e.coerce(a, b)
 		return iteVal(e.fr.vc, c.L[0], a, b)
 	case "forall", "exists":
+		save := e.pol
+		e.pol = 0
 		lo := e.intOf(e.eval(n.Args[0]))
 		hi := e.intOf(e.eval(n.Args[1]))
-		k := e.fr.vc.name("q_" + n.Name)
+		e.pol = save
+		vc := e.fr.vc
+		skolem := (n.Kind == "forall" && e.pol == -1) || (n.Kind == "exists" && e.pol == +1)
+		if skolem {
+			// the quantifier disappears: the variable is a fresh arbitrary constant
+			k := vc.fresh("sk_"+n.Name, "Int")
+			e.bound[n.Name] = k
+			body := e.eval(n.Args[2]).L[0]
+			delete(e.bound, n.Name)
+			rng := and(le(lo, k), lt(k, hi))
+			if n.Kind == "forall" {
+				return bval(imp(rng, body))
+			}
+			return bval(and(rng, body))
+		}
+		// a real quantifier: the body must be a closed term (no named abbreviations)
+		k := vc.name("q_" + n.Name)
 		e.bound[n.Name] = k
+		vc.noDefine++
 		body := e.eval(n.Args[2]).L[0]
+		vc.noDefine--
 		delete(e.bound, n.Name)
 		rng := and(le(lo, k), lt(k, hi))
 		if n.Kind == "forall" {
@@ -286,19 +339,27 @@ func (e *evalEnv) unary(n *Node) *Val {
 func (e *evalEnv) binary(n *Node) *Val {
 	switch n.Op {
 	case "==>":
+		e.pol = -e.pol
 		a := e.eval(n.Args[0]).L[0]
+		e.pol = -e.pol
 		b := e.eval(n.Args[1]).L[0]
 		return bval(imp(a, b))
 	case "<==>":
+		save := e.pol
+		e.pol = 0
 		a := e.eval(n.Args[0]).L[0]
 		b := e.eval(n.Args[1]).L[0]
+		e.pol = save
 		return bval(eq(a, b))
 	case "&&":
 		return bval(and(e.eval(n.Args[0]).L[0], e.eval(n.Args[1]).L[0]))
 	case "||":
 		return bval(or(e.eval(n.Args[0]).L[0], e.eval(n.Args[1]).L[0]))
 	}
+	savePol := e.pol
+	e.pol = 0
 	a, b := e.eval(n.Args[0]), e.eval(n.Args[1])
+	e.pol = savePol
 	a, b = e.coerce(a, b)
 	switch n.Op {
 	case "==", "!=":
@@ -640,6 +701,29 @@ func (e *evalEnv) call(n *Node) *Val {
 		was := e.loadAt(a0, t)
 		e.st = save
 		return bval(e.equal(now, was))
+	case "S":
+		// byte k of the ghost input stream
+		fr.vc.streamConsts()
+		k := e.intOf(e.eval(args[0]))
+		return &Val{T: types.Typ[types.Uint8], L: []string{sel("g_S", k)}}
+	case "errIsT":
+		// errors.Is(e, T) for the stream's terminal error T
+		fr.vc.streamConsts()
+		x := e.eval(args[0])
+		t := &Val{T: x.T, L: []string{"g_Ttag", "g_Tval"}}
+		return mErrorsIs(fr, nil, nil, []*Val{x, t})
+	case "isT":
+		fr.vc.streamConsts()
+		x := e.eval(args[0])
+		return bval(and(eq(x.L[0], "g_Ttag"), eq(x.L[1], "g_Tval")))
+	case "errIsEOF":
+		x := e.eval(args[0])
+		eof := e.ioGlobal("EOF")
+		return mErrorsIs(fr, nil, nil, []*Val{x, eof})
+	case "tIsEOF":
+		fr.vc.streamConsts()
+		eof := e.ioGlobal("EOF")
+		return bval(and(eq(eof.L[0], "g_Ttag"), eq(eof.L[1], "g_Tval")))
 	case "ival":
 		// raw payload (address) of an interface value
 		x := e.eval(args[0])
@@ -708,5 +792,18 @@ func (e *evalEnv) call(n *Node) *Val {
 	}
 	// method call on a value: only spec-level accessors are supported via functions
 	e.fail("unknown function %s", name)
+	return nil
+}
+
+func (e *evalEnv) ioGlobal(name string) *Val {
+	w := e.fr.vc.w
+	for _, p := range w.prog.AllPackages() {
+		if p.Pkg.Path() == "io" {
+			if g, ok := p.Members[name].(*ssa.Global); ok {
+				return e.loadAt(intLit(w.globalAddr(g)), elemOf(g.Type()))
+			}
+		}
+	}
+	e.fail("io.%s not found", name)
 	return nil
 }
